@@ -1347,7 +1347,9 @@ class SetIndexBlockwise(PinnedPartitioning, Blockwise):
                 self,
                 parent,
                 dependents,
-                additional_columns=_convert_to_list(self.other),
+                additional_columns=(
+                    [] if isinstance(self.other, Expr) else _convert_to_list(self.other)
+                ),
             )
             if self.frame.columns == columns:
                 return
